@@ -1,5 +1,6 @@
 import AidlVerif.Model.Typing
 import AidlVerif.Lemmas.RunM
+import AidlVerif.Lemmas.Types
 
 /-!
 # Typing of semantic values and of actions
@@ -12,6 +13,53 @@ namespace Aidl.Props.Typed
 open Aidl Aidl.Actions Aidl.Typing Aidl.Lexer
 
 def hasError (ds : List Diag) : Prop := ∃ d ∈ ds, d.kind = .error
+
+/-! ### the arities of generic types (what `check_container` of validation.rs indexes into) -/
+
+/-- an array has its element, a list at most one parameter, a map none or two -/
+def tyArity (t : Ty) : Bool :=
+  match t.kind with
+  | .array => t.gens.length ≥ 1
+  | .list => t.gens.length ≤ 1
+  | .map => t.gens.length = 0 ∨ t.gens.length = 2
+  | _ => true
+
+/-- every type node inside `t`, at any depth, has the arity of its kind -/
+def TyWF (t : Ty) : Prop := ∀ u ∈ Ty.walkOrder t, tyArity u = true
+
+theorem TyWF.leaf (n : String) (k : TypeKind) (s f : Range) (hk : k ≠ .array) : TyWF (.mk n k [] s f) := by
+  intro u hu
+  simp only [Ty.walkOrder, hk, if_false, Ty.walkOrderList, List.mem_cons, List.not_mem_nil, or_false] at hu
+  subst hu
+  cases k <;> simp_all [tyArity, Ty.kind, Ty.gens]
+
+theorem TyWF.array (n : String) (t : Ty) (s f : Range) (h : TyWF t) : TyWF (.mk n .array [t] s f) := by
+  intro u hu
+  simp only [Ty.walkOrder, if_true, Ty.walkOrderList, List.append_nil, List.mem_append, List.mem_cons,
+    List.not_mem_nil, or_false] at hu
+  rcases hu with hu | rfl
+  · exact h u hu
+  · simp [tyArity, Ty.kind, Ty.gens]
+
+theorem TyWF.list1 (n : String) (t : Ty) (s f : Range) (h : TyWF t) : TyWF (.mk n .list [t] s f) := by
+  intro u hu
+  simp only [Ty.walkOrder, Ty.walkOrderList, List.append_nil, List.mem_cons, reduceCtorEq, if_false] at hu
+  rcases hu with rfl | hu
+  · simp [tyArity, Ty.kind, Ty.gens]
+  · exact h u hu
+
+theorem TyWF.map2 (n : String) (a b : Ty) (s f : Range) (ha : TyWF a) (hb : TyWF b) : TyWF (.mk n .map [a, b] s f) := by
+  intro u hu
+  simp only [Ty.walkOrder, Ty.walkOrderList, List.append_nil, List.mem_cons, List.mem_append, reduceCtorEq, if_false] at hu
+  rcases hu with rfl | hu | hu
+  · simp [tyArity, Ty.kind, Ty.gens]
+  · exact ha u hu
+  · exact hb u hu
+
+def ItemWF : Item → Prop
+  | .interface i => ∀ e ∈ i.elements, ∀ t ∈ e.topTypes, TyWF t
+  | .parcelable p => ∀ e ∈ p.elements, ∀ t ∈ e.topTypes, TyWF t
+  | .enum _ => True
 
 def HasTy (E : Prop) : VTy → Val → Prop
   | .tok, .tok _ => True
@@ -27,21 +75,21 @@ def HasTy (E : Prop) : VTy → Val → Prop
   | .pair a b, .pair x y => HasTy E a x ∧ HasTy E b y
   | .package, .package _ => True
   | .import_, .import_ _ => True
-  | .ty, .ty _ => True
+  | .ty, .ty t => TyWF t
   | .dir, .dir _ => True
   | .ann, .ann _ => True
-  | .arg, .arg _ => True
-  | .method, .method _ => True
-  | .const, .const _ => True
-  | .field, .field _ => True
+  | .arg, .arg a => TyWF a.argType
+  | .method, .method m => TyWF m.returnType ∧ ∀ a ∈ m.args, TyWF a.argType
+  | .const, .const c => TyWF c.constType
+  | .field, .field f => TyWF f.fieldType
   | .enumEl, .enumEl _ => True
-  | .iel, .iel _ => True
-  | .pel, .pel _ => True
-  | .iface, .iface _ => True
-  | .parc, .parc _ => True
+  | .iel, .iel e => ∀ t ∈ e.topTypes, TyWF t
+  | .pel, .pel e => ∀ t ∈ e.topTypes, TyWF t
+  | .iface, .iface i => ItemWF (.interface i)
+  | .parc, .parc p => ItemWF (.parcelable p)
   | .enm, .enm _ => True
-  | .item, .item _ => True
-  | .aidl, .aidl _ => True
+  | .item, .item it => ItemWF it
+  | .aidl, .aidl a => ItemWF a.item
   | _, _ => False
 
 theorem hasTy_tok (E : Prop) (v : Val) : HasTy E .tok v ↔ ∃ x, v = .tok x := by
@@ -56,35 +104,35 @@ theorem hasTy_package (E : Prop) (v : Val) : HasTy E .package v ↔ ∃ x, v = .
   cases v <;> simp [HasTy]
 theorem hasTy_import_ (E : Prop) (v : Val) : HasTy E .import_ v ↔ ∃ x, v = .import_ x := by
   cases v <;> simp [HasTy]
-theorem hasTy_ty (E : Prop) (v : Val) : HasTy E .ty v ↔ ∃ x, v = .ty x := by
+theorem hasTy_ty (E : Prop) (v : Val) : HasTy E .ty v ↔ ∃ x, v = .ty x ∧ TyWF x := by
   cases v <;> simp [HasTy]
 theorem hasTy_dir (E : Prop) (v : Val) : HasTy E .dir v ↔ ∃ x, v = .dir x := by
   cases v <;> simp [HasTy]
 theorem hasTy_ann (E : Prop) (v : Val) : HasTy E .ann v ↔ ∃ x, v = .ann x := by
   cases v <;> simp [HasTy]
-theorem hasTy_arg (E : Prop) (v : Val) : HasTy E .arg v ↔ ∃ x, v = .arg x := by
+theorem hasTy_arg (E : Prop) (v : Val) : HasTy E .arg v ↔ ∃ x, v = .arg x ∧ TyWF x.argType := by
   cases v <;> simp [HasTy]
-theorem hasTy_method (E : Prop) (v : Val) : HasTy E .method v ↔ ∃ x, v = .method x := by
+theorem hasTy_method (E : Prop) (v : Val) : HasTy E .method v ↔ ∃ x, v = .method x ∧ (TyWF x.returnType ∧ ∀ a ∈ x.args, TyWF a.argType) := by
   cases v <;> simp [HasTy]
-theorem hasTy_const (E : Prop) (v : Val) : HasTy E .const v ↔ ∃ x, v = .const x := by
+theorem hasTy_const (E : Prop) (v : Val) : HasTy E .const v ↔ ∃ x, v = .const x ∧ TyWF x.constType := by
   cases v <;> simp [HasTy]
-theorem hasTy_field (E : Prop) (v : Val) : HasTy E .field v ↔ ∃ x, v = .field x := by
+theorem hasTy_field (E : Prop) (v : Val) : HasTy E .field v ↔ ∃ x, v = .field x ∧ TyWF x.fieldType := by
   cases v <;> simp [HasTy]
 theorem hasTy_enumEl (E : Prop) (v : Val) : HasTy E .enumEl v ↔ ∃ x, v = .enumEl x := by
   cases v <;> simp [HasTy]
-theorem hasTy_iel (E : Prop) (v : Val) : HasTy E .iel v ↔ ∃ x, v = .iel x := by
+theorem hasTy_iel (E : Prop) (v : Val) : HasTy E .iel v ↔ ∃ x, v = .iel x ∧ (∀ t ∈ x.topTypes, TyWF t) := by
   cases v <;> simp [HasTy]
-theorem hasTy_pel (E : Prop) (v : Val) : HasTy E .pel v ↔ ∃ x, v = .pel x := by
+theorem hasTy_pel (E : Prop) (v : Val) : HasTy E .pel v ↔ ∃ x, v = .pel x ∧ (∀ t ∈ x.topTypes, TyWF t) := by
   cases v <;> simp [HasTy]
-theorem hasTy_iface (E : Prop) (v : Val) : HasTy E .iface v ↔ ∃ x, v = .iface x := by
+theorem hasTy_iface (E : Prop) (v : Val) : HasTy E .iface v ↔ ∃ x, v = .iface x ∧ ItemWF (.interface x) := by
   cases v <;> simp [HasTy]
-theorem hasTy_parc (E : Prop) (v : Val) : HasTy E .parc v ↔ ∃ x, v = .parc x := by
+theorem hasTy_parc (E : Prop) (v : Val) : HasTy E .parc v ↔ ∃ x, v = .parc x ∧ ItemWF (.parcelable x) := by
   cases v <;> simp [HasTy]
 theorem hasTy_enm (E : Prop) (v : Val) : HasTy E .enm v ↔ ∃ x, v = .enm x := by
   cases v <;> simp [HasTy]
-theorem hasTy_item (E : Prop) (v : Val) : HasTy E .item v ↔ ∃ x, v = .item x := by
+theorem hasTy_item (E : Prop) (v : Val) : HasTy E .item v ↔ ∃ x, v = .item x ∧ ItemWF x := by
   cases v <;> simp [HasTy]
-theorem hasTy_aidl (E : Prop) (v : Val) : HasTy E .aidl v ↔ ∃ x, v = .aidl x := by
+theorem hasTy_aidl (E : Prop) (v : Val) : HasTy E .aidl v ↔ ∃ x, v = .aidl x ∧ ItemWF x.item := by
   cases v <;> simp [HasTy]
 theorem hasTy_recovery (E : Prop) (v : Val) : HasTy E .recovery v ↔ ∃ e d, v = .recovery e d := by
   cases v <;> simp [HasTy]
